@@ -234,6 +234,32 @@ func ruleT8(c *Ctx) {
 				c.check(naux == 1 && !secConst, "T8", key+"|section symbol", c.L.Pos(pr.pos), "section symbols: class 3 (static), one aux record, section number i+1")
 			default:
 				c.check(cls == 2 && naux == 0, "T8", key+"|external", c.L.Pos(pr.pos), fmt.Sprintf("GLOBAL/EXTERN symbols: class %d (must be 2 = external), aux %d (0)", cls, naux))
+				if !secConst {
+					// a defined symbol: its section is a local that holds the constant 1 (.text — the
+					// only section gosk puts code and labels in)
+					good := false
+					if id, ok := field(pr.sym, "SectionNumber").(*ast.Ident); ok {
+						ast.Inspect(fd.Body, func(n ast.Node) bool {
+							as, ok := n.(*ast.AssignStmt)
+							if !ok || len(as.Lhs) != 1 || len(as.Rhs) != 1 {
+								return true
+							}
+							if l, ok := as.Lhs[0].(*ast.Ident); ok && l.Name == id.Name {
+								rhs := as.Rhs[0]
+								if call, ok := rhs.(*ast.CallExpr); ok && len(call.Args) == 1 {
+									rhs = call.Args[0]
+								}
+								if v, ok := constInt(info, rhs); ok && v == 1 {
+									good = true
+								} else {
+									good = false
+								}
+							}
+							return true
+						})
+					}
+					c.check(good, "T8", key+"|defined symbol section", c.L.Pos(pr.pos), "a defined GLOBAL symbol belongs to section 1 (.text): its section number must be that constant, not a value computed from a directive")
+				}
 				if secConst {
 					c.check(sec == 0, "T8", key+"|undefined section", c.L.Pos(pr.pos), "an undefined symbol has section number 0 and value 0")
 					v, vok := constInt(info, field(pr.sym, "Value"))
